@@ -47,24 +47,34 @@ Section Shortest.
         | false, false => d :: gen_digits f r' s mp' mm'
         | true, false => [d]
         | false, true => [d + 1]
-        | true, true => if r' * 2 <? s then [d] else [d + 1]
+        | true, true => if r' * 2 <? s then [d]                      (* nearer below *)
+                        else if r' * 2 =? s then (if Z.even d then [d] else [d + 1])   (* half-way: to even *)
+                        else [d + 1]
         end
     end.
 End Shortest.
 
 (* digits d1..dn and the decimal point position k: value = 0.d1...dn * 10^k *)
+(* 2^n by shifting (Z.pow multiplies n times) *)
+Definition pow2 (n : Z) : Z := Z.shiftl 1 n.
+
 Definition shortest_digits (m : positive) (e : Z) : list Z * Z :=
   let mz := Z.pos m in
   let even := Z.even mz in
-  let boundary := (mz =? 2 ^ 52) && negb (e =? -1074) in
+  let boundary := (mz =? pow2 52) && negb (e =? -1074) in
   let '(r, s, mp, mm) :=
     if 0 <=? e then
-      if boundary then (mz * 2 ^ (e + 1) * 2, 4, 2 ^ (e + 1), 2 ^ e)
-      else (mz * 2 ^ e * 2, 2, 2 ^ e, 2 ^ e)
+      if boundary then (mz * pow2 (e + 1) * 2, 4, pow2 (e + 1), pow2 e)
+      else (mz * pow2 e * 2, 2, pow2 e, pow2 e)
     else
-      if boundary then (mz * 4, 2 ^ (- e + 1) * 2, 2, 1)
-      else (mz * 2, 2 ^ (- e) * 2, 1, 1) in
-  let '(r1, s1, mp1, mm1, k1) := fix_up even 400 r s mp mm 0 in
+      if boundary then (mz * 4, pow2 (- e + 1) * 2, 2, 1)
+      else (mz * 2, pow2 (- e) * 2, 1, 1) in
+  (* start from an estimate of the decimal exponent, the loops below make it exact *)
+  let est := ((Z.log2 (r + mp) - Z.log2 s) * 30103) / 100000 - 1 in
+  let '(r0, s0, mp0, mm0) :=
+    if 0 <=? est then (r, s * 10 ^ est, mp, mm)
+    else (r * 10 ^ (- est), s, mp * 10 ^ (- est), mm * 10 ^ (- est)) in
+  let '(r1, s1, mp1, mm1, k1) := fix_up even 400 r0 s0 mp0 mm0 est in
   let '(r2, s2, mp2, mm2, k2) := fix_down even 400 r1 s1 mp1 mm1 k1 in
   (gen_digits even 25 r2 s2 mp2 mm2, k2).
 
@@ -126,7 +136,7 @@ Definition fmt_f (x : f64) : str :=
 Definition round_ratio (neg : bool) (p q : Z) : f64 :=
   if p =? 0 then B754_zero neg else
   let shift := Z.max 0 (66 + Z.log2 q - Z.log2 p) in
-  let num := p * 2 ^ shift in
+  let num := Z.shiftl p shift in
   let quo := num / q in
   let sticky := if num mod q =? 0 then 0 else 1 in
   let m := quo * 2 + sticky in
